@@ -46,6 +46,42 @@ def gen(rng, tier):
         nchr = len(set(c for c, _, _ in stored))
         nt = hits > 0 and (nchr >= 2 or any(e - s > 6 for _, s, e in stored))
         yield Case(sx.dump(['gmap', ['recs'] + recs_sx(first), ['ops'] + ops]), nt, mode)
+    # 130..400 records on one chromosome (past any per-block summary of 64 / 128 / 256 entries), a few LONG records placed
+    # just before / after multiples of 64 in sorted position, collected in bulk, then inserts that shift every later
+    # element by one (a new first record, duplicates of the first, a record in the middle), then queries into the far
+    # tails of the long records and across the block boundaries; no re-collection in between
+    for k in range(10 if tier == 'quick' else 150):
+        m = rng.choice([130, 193, 257, 300, 400])
+        step = 10
+        base = [(b'chr1', 10 + i * step, 10 + i * step + rng.randint(1, 8)) for i in range(m)]
+        longs = [j for j in (62, 63, 64, 127, 128, 191, 255, 256) if j < m]
+        for j in rng.sample(longs, min(len(longs), rng.randint(1, 3))):
+            base[j] = (b'chr1', base[j][1], base[j][1] + rng.choice([700, 1500, 5000]))
+        first = list(base)
+        if k % 3 == 0:
+            rng.shuffle(first)
+        ops = []
+        nid = len(first)
+        stored = list(first)
+        def ins(r):
+            nonlocal nid
+            ops.append(['ins', R.h(r[0]), r[1], r[2], nid]); nid += 1; stored.append(r)
+        def ask(a0, b0):
+            ops.append(['find', R.h(b'chr1'), a0, b0]); ops.append(['isov', R.h(b'chr1'), a0, b0])
+        for rnd in range(rng.randint(1, 3)):
+            ins((b'chr1', rng.randint(0, 9), rng.randint(10, 12)))            # a new first record: everything shifts
+            if rng.random() < 0.5:
+                ins((b'chr2', 5, 9))
+            if rng.random() < 0.5:
+                j = rng.randrange(m); ins((b'chr1', base[j][1] + 1, base[j][1] + 2))
+            for (c, s_, e_) in [r for r in stored if r[2] - r[1] > 100]:
+                t0 = rng.randint(s_ + 100, e_ - 1); ask(t0, t0 + 1)
+                ask(e_ - 1, e_); ask(e_, e_ + 3)
+            for j in (63, 64, 127, 128, 255, 256):
+                if j < m:
+                    ask(base[j][1] - 2, base[j][1] + 2)
+        ops += [['len']]
+        yield Case(sx.dump(['gmap', ['recs'] + recs_sx(first), ['ops'] + ops]), True, 'many-records')
     if tier == 'thorough':
         # small-scope exhaustive: multisets of <= 2 intervals over 0..3 on one chromosome x split x all queries
         c = R.h(b'chr1')
